@@ -210,7 +210,7 @@ def cmd_run(pid, tier):
         cov["explanation"] = ("states = choice-tree nodes visited (every choice point of every execution) plus BFS states; "
                               "transitions = scheduling steps executed plus BFS edges; every trace is an execution of the real code")
     else:
-        ev = R["executions"] + R["fault_evaluations"]
+        ev = R.get("cases", R["executions"]) + R["fault_evaluations"]
         nt = R["nontrivial"] + R["fault_nontrivial"]
         cov = dict(evaluations=ev, distinct_nontrivial=nt, rule=c["rule"], samples=samples)
     cov.update(executions=R["executions"], choice_nodes=R["choice_nodes"], sched_steps=R["sched_steps"],
